@@ -608,8 +608,16 @@ func (r *Report) tryReplay(o *Obligation, dir string, log *strings.Builder) (str
 			}
 			asms = append(asms, tOr(alts...))
 		}
+		for i := range n.elems {
+			asms = append(asms, fmt.Sprintf("(<= %s %d)", n.L[i+2], maxSliceElems))
+		}
 		for _, c := range n.ptr {
 			restrict(c)
+		}
+		for _, cs := range n.iface {
+			for _, c := range cs {
+				restrict(c)
+			}
 		}
 		for _, cs := range n.elems {
 			for _, c := range cs {
